@@ -155,7 +155,14 @@ class BandwidthLimitedStream:
         # certain threshold.
         self._bytes_seen += amount
         if self._bytes_seen < self._bytes_threshold:
-            return self._fileobj.read(amount)
+            data = self._fileobj.read(amount)
+            if not data and self._bytes_seen:
+                # The stream is exhausted before the threshold was reached.
+                # Account for what was read so far, otherwise streams that
+                # are smaller than the threshold and never get closed (i.e.
+                # small downloads) would not be throttled at all.
+                self._consume_through_leaky_bucket()
+            return data
 
         self._consume_through_leaky_bucket()
         return self._fileobj.read(amount)
